@@ -410,6 +410,12 @@ func ruleRegisterCallers(c *Ctx) []Obligation {
 				return len(ga.invokes(c.renderName())) > 0 && len(ga.invokes(c.nullName())) > 0
 			}
 			okCaller := (isRender && isTokRender(f)) || isItems || (!isRender && c.onlyReachedFrom(f, func(g *ssa.Function) bool { return isTokRender(g) || isListRenderer(g) }, 2))
+			// in a helper that only token.render reaches, the token-type test may sit in the caller (a
+			// dispatch on the type): P-TOKEN shows on token.render's own paths that only package tokens
+			// register
+			if !okTok && !isRender && c.onlyReachedFrom(f, isTokRender, 2) {
+				okTok = true
+			}
 			o.req(okTok && okArg && okCaller, fname(f), "call of registration function", ci.Pos(),
 				"registration must happen only while a package token is being rendered (token.render) or pre-registered by the list renderer; facts=%s arg=%s", facts, arg)
 		}
@@ -1284,6 +1290,7 @@ func (c *Ctx) onlyReachedFrom(f *ssa.Function, ok func(*ssa.Function) bool, dept
 		return false
 	}
 	n := 0
+	internal := c.internalOnlySig(f.Signature)
 	for _, g := range c.CG().Funcs {
 		for _, b := range g.Blocks {
 			for _, in := range b.Instrs {
@@ -1296,7 +1303,7 @@ func (c *Ctx) onlyReachedFrom(f *ssa.Function, ok func(*ssa.Function) bool, dept
 						}
 					}
 					for _, a := range x.Common().Args {
-						if a == ssa.Value(f) {
+						if a == ssa.Value(f) && !internal {
 							return false
 						}
 					}
@@ -1305,6 +1312,16 @@ func (c *Ctx) onlyReachedFrom(f *ssa.Function, ok func(*ssa.Function) bool, dept
 						return false
 					}
 				}
+			}
+		}
+	}
+	if internal {
+		// a function of module-internal type handed around as a value: whoever takes its address
+		// counts as its caller
+		for _, g := range c.addrTaken()[f] {
+			n++
+			if !c.onlyReachedFrom(g, ok, depth-1) {
+				return false
 			}
 		}
 	}
